@@ -11,6 +11,17 @@ pub trait SizedRequest {
     fn is_publish(&self) -> bool;
 
     fn is_chunk(&self) -> bool;
+
+    /// Publish packet with incomplete payload, remaining payload
+    /// is delivered with payload chunks
+    fn is_streaming_publish(&self) -> bool {
+        self.is_publish()
+    }
+
+    /// Last chunk of streamed payload
+    fn is_last_chunk(&self) -> bool {
+        false
+    }
 }
 
 pub struct InFlightServiceImpl<S> {
@@ -54,12 +65,13 @@ where
 
     #[inline]
     async fn call(&self, req: R, ctx: ServiceCtx<'_, Self>) -> Result<S::Response, S::Error> {
-        // process payload chunks
-        if self.publish.get() && !req.is_chunk() {
-            self.publish.set(false);
-        }
-        if req.is_publish() {
-            self.publish.set(true);
+        // payload chunks of streamed publish must not be blocked by limits
+        if req.is_chunk() {
+            if req.is_last_chunk() {
+                self.publish.set(false);
+            }
+        } else {
+            self.publish.set(req.is_streaming_publish());
         }
 
         let size = if self.count.0.max_size > 0 { req.size() } else { 0 };
